@@ -21,7 +21,7 @@ use std::time::{Duration, Instant};
 
 pub const META: Meta = Meta {
     level: "model_checking",
-    rule: "BFS over all histories of update(pair, d in {1,3,7} heartbeat intervals) / heartbeat / advance(1/2 interval) / advance(1 interval) on the real BackoffStorage (prune_backoff = 3 intervals, slack in {0,1}, 2 (quick) or 3 (thorough) topic-peer pairs), virtual clock; states deduplicated on (reference deadlines relative to now, storage answers, slot phase). Non-trivial = states in which the storage holds at least one backoff entry.",
+    rule: "BFS over all histories of update(pair, d in {1,3,7} heartbeat intervals) / heartbeat / advance(1/2 interval) / advance(1 interval) on the real BackoffStorage (prune_backoff = 3 intervals, slack in {0,1}, 2 topic-peer pairs to depth 10 (quick); 2 pairs to depth 13 and 3 pairs to depth 9 (thorough)), virtual clock; states deduplicated on (reference deadlines relative to now, storage answers, slot phase). Non-trivial = states in which the storage holds at least one backoff entry.",
     explanation: "After every step each pair is compared with the reference deadline (max over updates of t+d): backed off and get_backoff_time >= deadline while now < deadline; entry gone after deadline + slack and one full heartbeat cycle; never-updated pairs not backed off. An un-deduplicated DFS to a smaller depth re-checks all paths without merging.",
     assumptions: &["2-3 (topic, peer) pairs, durations of 1/3/7 intervals (7 > table length: slot index wraps)", "time advances in half-interval steps"],
 };
